@@ -18,8 +18,12 @@ from .prog import AnalysisError, unparse
 
 SAFE = {"reversed": reversed, "range": range, "map": map, "filter": filter, "sum": sum, "min": min, "max": max, "abs": abs, "round": round,
         "getattr": getattr, "hasattr": hasattr, "type": type, "dict": dict, "tuple": tuple, "enumerate": enumerate, "zip": zip, "int": int, "float": float,
-        "any": any, "all": all, "isinstance": isinstance, "len": len, "str": str, "bool": bool, "frozenset": frozenset,
+        "any": any, "all": all, "isinstance": isinstance, "issubclass": issubclass, "callable": callable, "iter": iter, "next": next, "repr": repr, "setattr": setattr,
+        "divmod": divmod, "ord": ord, "chr": chr, "bytes": bytes, "slice": slice, "object": object, "print": (lambda *a, **k: None), "len": len, "str": str, "bool": bool, "frozenset": frozenset,
         "set": set, "list": list, "sorted": sorted, "None": None, "True": True, "False": False}
+
+
+PURE_STDLIB = {"re", "fnmatch", "string", "itertools", "functools", "collections", "math", "operator", "copy", "uuid", "ipaddress", "datetime", "base64", "typing"}
 
 
 class _Continue(Exception):
@@ -174,9 +178,17 @@ class Interp:
             elif isinstance(s, ast.Assert):
                 pass  # assertions narrow types for the reader; they are not part of the tabulated behaviour
             elif isinstance(s, (ast.Import, ast.ImportFrom)):
-                for a in s.names:  # imported names must be provided by the rule as stand-ins
-                    if (a.asname or a.name.split(".")[0]) not in self.env:
-                        raise AnalysisError(f"tabulation: no stand-in for imported name {a.asname or a.name}")
+                for a in s.names:  # imported names must be provided by the rule as stand-ins — or be pure standard library
+                    nm = a.asname or a.name.split(".")[0]
+                    if nm in self.env:
+                        continue
+                    modname = s.module if isinstance(s, ast.ImportFrom) else a.name
+                    if (modname or "").split(".")[0] in PURE_STDLIB and not getattr(s, "level", 0):
+                        import importlib
+                        mod = importlib.import_module(modname)
+                        self.env[nm] = getattr(mod, a.name) if isinstance(s, ast.ImportFrom) else importlib.import_module(a.name.split(".")[0])
+                        continue
+                    raise AnalysisError(f"tabulation: no stand-in for imported name {a.asname or a.name}")
             elif isinstance(s, ast.Try) and not s.finalbody:
                 try:
                     self.run(s.body)
@@ -222,3 +234,160 @@ def char_dependencies(stmts: Iterable[ast.stmt], var: str, allowed_atoms: set[st
                 if any(isinstance(x, ast.Name) and x.id == var for x in ast.walk(a)) and unparse(a) not in allowed_atoms:
                     bad.append(unparse(a))
     return bad
+
+
+# ---------------------------------------------------------------------------------------------------------------------
+# Stand-in objects that resolve what they do not carry themselves from the *source* of the class they stand for: methods
+# (interpreted on demand), class-level constants (const-evaluated), static and class methods. A rule builds one with the
+# instance attributes of its scenario and calls the method under test; helper methods the maintainers extract, constants
+# they move to class attributes and early-return rewrites are followed without the rule knowing about them.
+class _Missing(Exception):
+    pass
+
+
+class Recorded:
+    """Default stand-in for a class the rule gives no stand-in for: remembers how it was constructed."""
+
+    def __init__(self, *args: Any, **kwargs: Any):
+        self.args, self.kwargs = args, kwargs
+
+    def __repr__(self) -> str:
+        return f"{type(self).__name__}{self.args!r}"
+
+    def __eq__(self, o: Any) -> bool:
+        return type(o).__name__ == type(self).__name__ and getattr(o, "args", None) == self.args and getattr(o, "kwargs", None) == self.kwargs
+
+    def __hash__(self) -> int:
+        return hash(type(self).__name__)
+
+
+def module_env(prog: Any, module: Any, base: dict[str, Any], interp_kwargs: dict[str, Any] | None = None) -> dict[str, Any]:
+    """base + the module-level functions of ``module`` (interpreted on demand) and its const-evaluable module constants;
+    names in ``base`` win (they are the rule's stand-ins)."""
+    from .util import const_eval
+    env = dict(base)
+    kw = dict(interp_kwargs or {})
+    for st in module.tree.body:
+        if isinstance(st, ast.ClassDef) and st.name not in env:
+            env[st.name] = type(st.name, (Recorded,), {})      # constructor calls are recorded (issue / error / value objects)
+        elif isinstance(st, ast.ImportFrom):
+            for al in st.names:
+                nm = al.asname or al.name
+                if nm not in env and nm[:1].isupper():
+                    env[nm] = type(nm, (Recorded,), {})
+        if isinstance(st, ast.FunctionDef) and st.name not in env:
+            def make(fd: ast.FunctionDef) -> Any:
+                def fn(*a: Any, **k: Any) -> Any:
+                    return Interp(env, **kw)._make_function(fd)(*a, **k)
+                return fn
+            env[st.name] = make(st)
+        elif isinstance(st, (ast.Assign, ast.AnnAssign)):
+            tg = st.targets[0] if isinstance(st, ast.Assign) else st.target
+            if isinstance(tg, ast.Name) and tg.id not in env and getattr(st, "value", None) is not None:
+                try:
+                    env[tg.id] = const_eval(prog, module, st.value)
+                except Exception:
+                    pass
+    return env
+
+
+class ClassProxy:
+    """Stands for the class object (self.__class__, cls): class attributes from source, calling it builds a new Proxy."""
+
+    def __init__(self, prog: Any, cq: str, env: dict[str, Any], ctor: Any = None, interp_kwargs: dict[str, Any] | None = None, overrides: dict[str, Any] | None = None):
+        object.__setattr__(self, "_p", (prog, cq, env, ctor, dict(interp_kwargs or {}), dict(overrides or {})))
+
+    def __getattr__(self, name: str) -> Any:
+        prog, cq, env, ctor, kw, over = object.__getattribute__(self, "_p")
+        if name in over:
+            return over[name]
+        if name == "__name__":
+            return cq.rsplit(".", 1)[-1]
+        return _class_attr(prog, cq, env, kw, name, self, None)
+
+    def __setattr__(self, name: str, value: Any) -> None:
+        object.__getattribute__(self, "_p")[5][name] = value
+
+    def __call__(self, *a: Any, **k: Any) -> Any:
+        prog, cq, env, ctor, kw, over = object.__getattribute__(self, "_p")
+        if ctor is None:
+            raise AnalysisError(f"tabulation: no constructor stand-in for {cq}")
+        return ctor(*a, **k)
+
+
+def _class_attr(prog: Any, cq: str, env: dict[str, Any], kw: dict[str, Any], name: str, klass: Any, inst: Any) -> Any:
+    from .util import const_eval
+    for q in prog.mro(cq):
+        c = prog.classes.get(q)
+        if c is None:
+            continue
+        m = c.methods.get(name)
+        if m is not None:
+            decos = [unparse(d) for d in m.node.decorator_list]
+            fn = Interp(module_env(prog, m.module, env, kw), **kw)._make_function(m.node)
+            if "staticmethod" in decos:
+                return fn
+            if "classmethod" in decos:
+                return lambda *a, **k: fn(klass, *a, **k)
+            if "property" in decos or any(d.endswith("cached_property") for d in decos):
+                if inst is None:
+                    raise AnalysisError(f"tabulation: property {name} read on the class")
+                return fn(inst)
+            if inst is None:
+                return fn
+            return lambda *a, **k: fn(inst, *a, **k)
+        for st in c.assigns.get(name, []):
+            v = getattr(st, "value", None)
+            if v is not None:
+                try:
+                    return const_eval(prog, c.module, v)
+                except Exception:
+                    try:
+                        return Interp(module_env(prog, c.module, env, kw), **kw).ev(v)
+                    except AnalysisError:
+                        raise AnalysisError(f"tabulation: class attribute {q}.{name} is not evaluable")
+    raise AttributeError(name)
+
+
+class Proxy:
+    """Stands for an instance of class ``cq``: ``attrs`` are its instance attributes; everything else comes from the source."""
+
+    def __init__(self, prog: Any, cq: str, env: dict[str, Any], attrs: dict[str, Any] | None = None, ctor: Any = None,
+                 interp_kwargs: dict[str, Any] | None = None, class_overrides: dict[str, Any] | None = None):
+        object.__setattr__(self, "_a", dict(attrs or {}))
+        object.__setattr__(self, "_k", ClassProxy(prog, cq, env, ctor, interp_kwargs, class_overrides))
+
+    @property  # type: ignore[misc]
+    def __class__(self) -> Any:  # noqa: D105
+        return object.__getattribute__(self, "_k")
+
+    def __getattr__(self, name: str) -> Any:
+        a = object.__getattribute__(self, "_a")
+        if name in a:
+            return a[name]
+        k = object.__getattribute__(self, "_k")
+        prog, cq, env, ctor, kw, over = object.__getattribute__(k, "_p")
+        if name in over:
+            return over[name]
+        return _class_attr(prog, cq, env, kw, name, k, self)
+
+    def __setattr__(self, name: str, value: Any) -> None:
+        object.__getattribute__(self, "_a")[name] = value
+
+    def attrs(self) -> dict[str, Any]:
+        return object.__getattribute__(self, "_a")
+
+
+def call_method(prog: Any, cq: str, method: str, self_obj: Any, env: dict[str, Any], *args: Any, interp_kwargs: dict[str, Any] | None = None, **kwargs: Any) -> Any:
+    """Interpret ``cq.method`` (looked up over the MRO in the source) on ``self_obj`` with the given arguments."""
+    for q in prog.mro(cq):
+        c = prog.classes.get(q)
+        if c is not None and method in c.methods:
+            m = c.methods[method]
+            kw = dict(interp_kwargs or {})
+            fn = Interp(module_env(prog, m.module, env, kw), **kw)._make_function(m.node)
+            decos = [unparse(d) for d in m.node.decorator_list]
+            if "staticmethod" in decos:
+                return fn(*args, **kwargs)
+            return fn(self_obj, *args, **kwargs)
+    raise AnalysisError(f"anchor vanished: method {cq}.{method}")
